@@ -300,6 +300,28 @@ def rule_map_err_q(text, ctx, where):
     return text, n
 
 
+def rule_ok_or_else_q(text, ctx, where):
+    """`E.ok_or_else(|| B)?` -> `(match E { Some(__v) => __v, None => { return Err(B); } })`"""
+    n = 0
+    while True:
+        m = mask(text)
+        mt = re.search(r"\.\s*ok_or_else\s*\(", m)
+        if not mt:
+            break
+        b = mt.end() - 1
+        e = match_delim(m, b)
+        if m[e + 1:e + 2] != "?":
+            raise AnchorLost(f"{where}: ok_or_else not followed by `?`")
+        s0 = chain_start(m, mt.start())
+        recv = text[s0:mt.start()].strip()
+        arg = text[b + 1:e].strip()
+        if not arg.startswith("||"):
+            raise AnchorLost(f"{where}: ok_or_else with a non-closure argument")
+        text = text[:s0] + f"(match {recv} {{ Some(__v) => __v, None => {{ return Err({arg[2:].strip()}); }} }})" + text[e + 2:]
+        n += 1
+    return text, n
+
+
 def rule_for_index(text, ctx, where):
     """`for X in PLACE {`  ->  `let mut __fk = 0; while __fk < PLACE.len() { let X = &PLACE[__fk]; __fk += 1;`
     where PLACE is a plain identifier path naming a slice/Vec reference (iteration by shared reference, in order).
@@ -307,7 +329,7 @@ def rule_for_index(text, ctx, where):
     n = 0
     while True:
         m = mask(text)
-        mt = re.search(r"\bfor\s+([A-Za-z_]\w*)\s+in\s+&?([A-Za-z_][\w\.]*)\s*\{", m)
+        mt = re.search(r"\bfor\s+([A-Za-z_]\w*)\s+in\s+&?([A-Za-z_][\w\.]*?)(?:\.iter\(\))?\s*\{", m)
         if not mt:
             break
         x, place = mt.group(1), mt.group(2)
@@ -546,7 +568,7 @@ def rule_unreachable_partial(text, ctx, where):
     return text, n
 
 
-RULES = {"for_zip": rule_for_zip, "msg_to_string": rule_msg_to_string, "for_consume": rule_for_consume, "for_entries": rule_for_entries, "opt_map": rule_opt_map, "opt_or_else": rule_opt_or_else, "closure_inline": rule_closure_inline, "unreachable_partial": rule_unreachable_partial, "assert_partial": rule_assert_partial, "for_index": rule_for_index, "map_err_q": rule_map_err_q, "iter_any": rule_iter_any, "opt_map_or": rule_opt_map_or, "mutself": rule_mutself, "fmtmsg": rule_fmtmsg, "pubfields": rule_pubfields, "T": rule_T, "attrs": rule_attrs, "cell": rule_cell}
+RULES = {"ok_or_else_q": rule_ok_or_else_q, "for_zip": rule_for_zip, "msg_to_string": rule_msg_to_string, "for_consume": rule_for_consume, "for_entries": rule_for_entries, "opt_map": rule_opt_map, "opt_or_else": rule_opt_or_else, "closure_inline": rule_closure_inline, "unreachable_partial": rule_unreachable_partial, "assert_partial": rule_assert_partial, "for_index": rule_for_index, "map_err_q": rule_map_err_q, "iter_any": rule_iter_any, "opt_map_or": rule_opt_map_or, "mutself": rule_mutself, "fmtmsg": rule_fmtmsg, "pubfields": rule_pubfields, "T": rule_T, "attrs": rule_attrs, "cell": rule_cell}
 
 
 def apply_rules(text, rules, ctx, counts, where):
